@@ -261,6 +261,100 @@ def krigeStored (x : XState) (slot n : Nat) : Bool :=
   | 1 => (x.core.var n).isSome
   | _ => false
 
+/-! ### the generator of the unconditional part
+
+  `CondSRF.__call__` starts with `self.generator.update(self.model, seed)` (`RandMeth.update`, field/generator.py).  The
+  generator keeps a PRIVATE deep copy of the model and the random modes drawn for it; `update` is the only place where that
+  copy is synchronised with the (re-assigned or in-place changed) model of the kriging setup.  `seed` omitted / `np.nan`
+  means "keep the present seed".  Values are identifiers as above. -/
+
+/-- the `seed` argument of a CondSRF call: omitted / `np.nan` (keep the generator's seed) or a seed -/
+inductive SeedReq where
+  | keep
+  | set (s : Nat)
+deriving DecidableEq, Repr, Inhabited
+
+structure GenState where
+  seed : Nat         -- the generator's seed
+  model : Nat        -- value of its private model copy (`sqrt(var / mode_no)`, nugget)
+  modesSeed : Nat    -- seed the present modes (`_z_1`, `_z_2`, `_cov_sample`) were drawn with
+  modesModel : Nat   -- model whose spectrum the present wave vectors were sampled from
+deriving DecidableEq, Repr, Inhabited
+
+/-- `RandMeth(model, seed=…)` -/
+def genInit (seed model : Nat) : GenState := { seed, model, modesSeed := seed, modesModel := model }
+
+/-- the seed in force after a call with request `req` -/
+def seedInForce (g : GenState) : SeedReq → Nat
+  | .keep => g.seed
+  | .set s => s
+
+/-- `RandMeth.update(model, seed)`: a model that differs from the private copy is copied and the modes are redrawn with
+    the requested (else the present) seed; otherwise only a seed that differs from the present one redraws (`seed` setter) -/
+def genUpdate (g : GenState) (m : Nat) (req : SeedReq) : GenState :=
+  if g.model = m then
+    match req with
+    | .keep => g
+    | .set s => if s = g.seed then g else { g with seed := s, modesSeed := s }
+  else
+    { seed := seedInForce g req, model := m, modesSeed := seedInForce g req, modesModel := m }
+
+/-- when `CondSRF.__call__` synchronises its generator: at every call (the code), or only when a seed is passed
+    (insufficient, see `Props/C07Gen.lean`) -/
+inductive GenRule where
+  | always | onSeedOnly
+deriving DecidableEq, Repr, Inhabited
+
+def genCall (rule : GenRule) (g : GenState) (m : Nat) (req : SeedReq) : GenState :=
+  match rule, req with
+  | .onSeedOnly, .keep => g
+  | _, _ => genUpdate g m req
+
+/-- what an unconditional field depends on -/
+structure GenTok where
+  seed : Nat         -- seed of the modes
+  specModel : Nat    -- model the wave vectors were sampled for
+  scaleModel : Nat   -- model whose variance scales the sum
+  pos : Nat          -- target positions
+deriving DecidableEq, Repr, Inhabited
+
+/-- the unconditional field the generator produces at `p` -/
+def genTok (g : GenState) (p : Nat) : GenTok :=
+  { seed := g.modesSeed, specModel := g.modesModel, scaleModel := g.model, pos := p }
+
+/-- the unconditional field of a freshly built object (model `m`, seed `sd`) at `p` — also that of an independent
+    `SRF(m, seed=sd)` -/
+def genFreshTok (sd m p : Nat) : GenTok := { seed := sd, specModel := m, scaleModel := m, pos := p }
+
+/-- cache state + generator -/
+structure GState where
+  core : State
+  gen : GenState
+deriving Inhabited
+
+def ginit (cond model mean seed : Nat) : GState := { core := init cond model mean, gen := genInit seed model }
+
+/-- one operation with its seed request (only looked at by CondSRF calls).  The generator is updated BEFORE the positions
+    are looked at: a call that raises for lack of positions has already taken over the model and the seed.  Output: the
+    kriging tokens and the unconditional token of a call that returns. -/
+def gstepWith (grule : GenRule) (rule : Rule) (s : GState) (op : Op) (req : SeedReq) : GState × CallOut × Option GenTok :=
+  let g' : GenState := match op with
+    | .call .. => genCall grule s.gen s.core.model req
+    | _ => s.gen
+  let r := stepWith rule s.core op
+  ({ core := r.1, gen := g' }, r.2, match r.2 with
+    | some _ => r.1.pos.map (genTok g')
+    | none => none)
+
+/-- the code: repaired reuse rule, generator synchronised at every call -/
+def gstep (s : GState) (op : Op) (req : SeedReq) : GState × CallOut × Option GenTok := gstepWith .always .bothRef s op req
+
+def grunWith (grule : GenRule) (rule : Rule) (s : GState) : List (Op × SeedReq) → GState
+  | [] => s
+  | (op, req) :: ops => grunWith grule rule (gstepWith grule rule s op req).1 ops
+
+def grun (s : GState) (ops : List (Op × SeedReq)) : GState := grunWith .always .bothRef s ops
+
 /-! ### the conditioning formula (`get_scaling` and the final sum) -/
 section formula
 open GSV.Transc
@@ -328,6 +422,20 @@ def parseRule (j : Json) : Rule :=
   | .ok (Json.str "var_ref") => .varRef
   | _ => .bothRef
 
+/-- seed request of an operation: `"seed": n` = that seed, absent = keep -/
+def parseSeed (j : Json) : SeedReq :=
+  match condOptNat j "seed" with
+  | some n => .set n
+  | none => .keep
+
+def parseGenRule (j : Json) : GenRule :=
+  match j.getObjVal? "genrule" with
+  | .ok (Json.str "on_seed_only") => .onSeedOnly
+  | _ => .always
+
+def genTokJson (t : GenTok) : Json :=
+  Json.arr ((#[t.seed, t.specModel, t.scaleModel, t.pos] : Array Nat).map fun n => Json.num (JsonNumber.fromNat n))
+
 def tokJson (t : KrigeTok) : Json :=
   Json.arr ((#[t.matCond, t.matModel, t.rhsModel, t.mean, t.pos] : Array Nat).map fun n => Json.num (JsonNumber.fromNat n))
 
@@ -336,28 +444,36 @@ def ops (op : String) (j : Json) : Option (Except String Json) :=
   | "cond_history" => some (do
       let c ← getNat j "cond"; let m ← getNat j "model"; let mu ← getNat j "mean"
       let rule := parseRule j
+      let grule := parseGenRule j
       let arr ← (← j.getObjVal? "ops").getArr?
-      let opl ← arr.toList.mapM fun o => do return (← parseOp o, parseAux o)
+      let opl ← arr.toList.mapM fun o => do return (← parseOp o, parseAux o, parseSeed o)
       -- replay step by step so that the fresh token of the state *at each call* is reported
       let mut x := xinit c m mu
+      let mut g := genInit ((condOptNat j "seed").getD 0) m
       let mut out : Array Json := #[]
       let mut names : Array Json := #[]
-      for (o, a) in opl do
+      for (o, a, req) in opl do
         let s := x.core
         let (x', r) := xstepWith rule x o a
+        let (gs', _, gt) := gstepWith grule rule { core := s, gen := g } o req
         let s' := x'.core
         match o, r with
         | .call .., some (tr, tv, reused) =>
           let p := s'.pos.getD 0
+          let gtok := gt.getD (genTok gs'.gen p)
+          let gfresh := genFreshTok (seedInForce g req) s'.model p
           out := out.push (Json.mkObj [("tok", tokJson tr), ("vtok", tokJson tv), ("fresh", tokJson (freshTok s' p)),
             ("reused", Json.bool reused),
             ("eq_fresh", Json.bool (decide (tr = freshTok s' p) && decide (tv = freshTok s' p))),
-            ("same_run", Json.bool (decide (tr = tv))), ("synced_before", Json.bool (syncedUpTo 4 s))])
+            ("same_run", Json.bool (decide (tr = tv))), ("synced_before", Json.bool (syncedUpTo 4 s)),
+            ("gen", genTokJson gtok), ("gen_fresh", genTokJson gfresh), ("gen_eq_fresh", Json.bool (decide (gtok = gfresh))),
+            ("seed", Json.num (JsonNumber.fromNat gs'.gen.seed))])
         | .call .., none => out := out.push (Json.str "ValueError")
         | _, _ => pure ()
         names := names.push (Json.mkObj [("crf", storedJson (crfStored x') 3), ("krige", storedJson (krigeStored x') 2)])
         x := x'
-      return Json.mkObj [("calls", Json.arr out), ("names", Json.arr names)])
+        g := gs'.gen
+      return Json.mkObj [("calls", Json.arr out), ("names", Json.arr names), ("final_seed", Json.num (JsonNumber.fromNat g.seed))])
   | "cond_value" => some (do
       let kr ← getFloats j "krige"; let kv ← getFloats j "kvar"; let raw ← getFloats j "raw"; let nz ← getFloats j "noise"
       let var ← getFloat j "var"; let nug ← getFloat j "nugget"
